@@ -31,6 +31,28 @@ CHECKS.update({
   text="For every case NumPy evaluates: an exception while building/planning must be ValueError/TypeError/NotImplementedError/IndexError (subclasses included), and no exception may occur once the executor has been entered on a fault-free store.",
   note="EXEC phase = after DagExecutor.execute_dag was entered. map_overlap is enumerated only for depth <= smallest chunk (its contract beyond that is not defined by NumPy)."),
 })
+CHECKS.update({
+ "C05": dict(
+  category="exploration", design_ref="DESIGN.md 4/C05, 3.2, 3.3", engine="cexec",
+  technique="exhaustive small-scope enumeration of computations on a controlled sequential executor over a tracing Zarr store; per-computation writer/coverage invariants on the attributed get/set trace",
+  text="For every computation (catalogue geometries, programs, rechunk under memory budgets forcing 1-3 stages with regular and irregular grids, store/to_zarr into new/existing/differently chunked/sharded targets with regions, multi-output ops) each data-chunk key of each produced array is set exactly once by exactly one task, is not read by that task first, and the set keys equal the array's chunk grid (or the region's chunks).",
+  note="Attribution relies on tasks running one at a time; read-before-write is not applied to sharded arrays (zarr reads an edge shard that it alone writes). The 'hence no lost updates' clause is demonstrated in C11 on the overlay executor."),
+ "C07": dict(
+  category="model_checking", design_ref="DESIGN.md 4/C07, 3.4, 3.5", engine="vsched",
+  technique="stateless model checking of the real async_map_dag on a virtual event loop: DFS over completion orders with deviation bound and sound state-fingerprint pruning, under an extremal-latency overlay store",
+  text="Every completion order (within the bound) of the tasks the real scheduler keeps running, for 6-12 API-built DAG shapes x optimize x sequential/parallel x batch sizes; tasks read at submission and their writes become visible only at completion, so a missing barrier shows as a read miss / stale read / wrong value in some explored schedule. Real single-threaded and threads executors replay each DAG as conformance.",
+  note="Workers unbounded (over-approximates any max_workers); bound 2 (quick) / 3 (thorough) deviations from oldest-first completion; <= 4 tasks per op."),
+ "C11": dict(
+  category="exploration", design_ref="DESIGN.md 4/C11", engine="cexec",
+  technique="exhaustive enumeration of store/to_zarr call scenarios, each run sequentially and under the overlay virtual executor with two extremal completion orders; plain-zarr read-back against NumPy + sentinel",
+  text="Every scenario in sources x shapes x chunkings x target kinds (new path, path+group, existing array of every chunking, sharded) x regions (none, full, every aligned and misaligned offset, wrong extent) x eager/lazy x call shapes (one pair, several pairs, same source twice, same source to differently chunked targets): each target equals the source inside the region and the sentinel outside, or the call raised an explicit error before any target write.",
+  note="1-d sizes <= 8, 2-d <= 4x4; overlay executor = reads at submission, writes visible at completion."),
+ "C13": dict(
+  category="exploration", design_ref="DESIGN.md 4/C13", engine="vsched",
+  technique="deviation-bounded enumeration of completion orders of the real async_map_dag on a virtual loop plus runs on the real local executors, judged by a recording Callback against FinalizedPlan",
+  text="For each program (multi-output, region store, multi-stage rechunk, fused/unfused, reduction, create-arrays only) x optimize x parallel x batch size: advertised num_tasks == len(mappable) == tasks run == task-end notifications per op; plan total == sum; one compute-start first / compute-end last; per op exactly one start and end around its task events.",
+  note="Processes executor not run (shares async_map_dag with threads)."),
+})
 
 NOT_YET = {
 }
